@@ -226,11 +226,13 @@ def run_history(kind, hist, seed):
         if kind in ("lru_keyfn", "lru_shared_deco_keyfn"):
             return ("kf", key_fn_parity(args, kw))
         if kind == "lru_method":
-            return (iname,) + tuple(key)
+            # (an instance that was dropped and created anew under the same name is ANOTHER instance)
+            return (iname, generation.get(iname, 0)) + tuple(key)
         return tuple(key)
 
     results = []
     dead_later = []
+    generation = {}
 
     @A()
     def driver():
@@ -478,6 +480,8 @@ def run_history(kind, hist, seed):
                     wr = weakref.ref(insts[iname])
                     del insts[iname]
                     pmodel.pop(iname, None)
+                    generation[iname] = generation.get(iname, 0) + 1
+                    stats["instances_dropped_and_created_anew"] = stats.get("instances_dropped_and_created_anew", 0) + 1
                     gc.collect()
                     if kind == "per_instance":
                         if wr() is not None:
@@ -661,7 +665,7 @@ def make_history(rnd, kind):
     for _ in range(rnd.randint(6, 30)):
         r = rnd.random()
         iname = "i%d" % rnd.randrange(ninst)
-        if kind == "per_instance" and r < 0.07:
+        if kind in ("per_instance", "lru_method") and r < 0.07:
             ops.append(["drop", iname])
         elif kind == "per_instance" and r < 0.17 and len(keys) >= 2:
             k1, k2 = rnd.sample(keys, 2)
